@@ -87,7 +87,7 @@ def run_ops(case, hook=None):
                 ok = False
             outcomes.append(ok)
             if hook is not None:
-                hook(i, op, seq, ok)
+                hook(i, op, seq, ok, maps)
     return cd, seq, outcomes
 
 
